@@ -288,7 +288,7 @@ EXTENSION_QUERIES = [
 ]
 COMPOUND_QUERIES = [
     "$.a | $.b", "$.b[*] & $.b[0:2]", "$.b[*] | $.b[*]", "$..a | $..b | $.c1", "$.b[*] & $.b[*] & $.b[1:]", "$[*] & $[0:2] | $[-1]",
-    "$.a[*] & $.b[*] & $.c[*]", "$[0] | $[1] & $[1]", "$.a[*] & $.b[*]", "$.x | $.a[*].b[*]",
+    "$.a[*] & $.b[*] & $.c[*]", "$[0] | $[1] & $[1]", "$.a[*] & $.b[*]", "$.x | $.a[*].b[*]", "$.a | ^[?@.a]", "^[?@.b] | $.b", "$.c | $.b | ^[?@.c]",
 ]
 COMPOUND_DOCS = [{"a": [1, 2, 3], "b": [3, 2, 1], "c": [2, 3, 4]}, {"a": [1, 2, 3], "b": [2, 3, 4], "c": [3, 4, 5]}, [1, 2, 3, 2, 1]]
 
